@@ -48,10 +48,48 @@ func (s *sided) valOfExpr(e ast.Expr) *VOpaque {
 			}
 		}
 	case *ast.StarExpr:
+		// *(*T)(unsafe.Pointer(...)): the conversion's target type
+		if c, ok := unparen(x.X).(*ast.CallExpr); ok {
+			if st, ok := unparen(c.Fun).(*ast.StarExpr); ok {
+				if id, ok := st.X.(*ast.Ident); ok {
+					if h := s.rs.hole(id.Name); h != nil && h.Kind == "TYPE" {
+						if o, ok := h.Val.(*VOpaque); ok {
+							return o
+						}
+					}
+				}
+			}
+		}
 		if b := underlyingVal(s.valOfExpr(x.X)); b != nil && b.Kind == "*types.Pointer" {
 			if el, ok := b.attrs["Elem"].(*VOpaque); ok {
 				return el
 			}
+		}
+	case *ast.SelectorExpr:
+		// field access: the NAME hole knows its *types.Var
+		if h := s.rs.hole(x.Sel.Name); h != nil && h.Kind == "NAME" {
+			if v, ok := h.Val.(*VOpaque); ok {
+				if t, ok := v.attrs["Type"].(*VOpaque); ok {
+					return t
+				}
+			}
+		}
+	case *ast.IndexExpr:
+		if b := underlyingVal(s.valOfExpr(x.X)); b != nil {
+			if el, ok := b.attrs["Elem"].(*VOpaque); ok && (b.Kind == "*types.Slice" || b.Kind == "*types.Array" || b.Kind == "*types.Map") {
+				return el
+			}
+		}
+	case *ast.UnaryExpr:
+		if x.Op == token.AND {
+			// &x : no symbolic pointer type available; callers strip & themselves
+			return nil
+		}
+	}
+	// a single-assignment local: the type of its definition
+	if id, ok := unparen(e).(*ast.Ident); ok && id.Pos().IsValid() {
+		if d, ok := s.defs.lookup(id.Name, id.Pos()); ok {
+			return s.valOfExpr(d)
 		}
 	}
 	return nil
